@@ -127,7 +127,7 @@ def make_session_class():
             if a[0] == 'a':                     # accepts a[1] >= 1 octets (everything when a[1] exceeds what is offered)
                 self.out += data[:a[1]]
                 return a[1]
-            if a[0] == 'r':                     # returns 0 or a negative number: closed
+            if a[0] == 'r':                     # returns 0 or a negative number: closed; or None: no count at all
                 return a[1]
             raise ScriptedFailure('scripted transport failure')
         def _transport_read(self):
@@ -140,7 +140,8 @@ def make_session_class():
     return WrSession
 
 def err_unsent(err, writes):
-    """(kind, unsent octets) of what the worker dispatched: 0 SessionCloseError(out_buf) | 1 the transport's own exception"""
+    """(kind, unsent octets) of what the worker dispatched: 0 SessionCloseError(out_buf) | 1 the transport's own exception
+    | 2 the TypeError of `n <= 0` on a write call answered with None (unsent = what that call had offered) | 3 anything else"""
     from ncclient.transport.errors import SessionCloseError
     if isinstance(err, SessionCloseError):
         m = re.match(r'^Unexpected session close OUT_BUFFER: `(.*)`$', str(err), re.S)
@@ -150,7 +151,9 @@ def err_unsent(err, writes):
         return 0, None
     if isinstance(err, ScriptedFailure):
         return 1, (writes[-1][0] if writes else b'')
-    return 2, None
+    if isinstance(err, TypeError) and writes and tuple(writes[-1][1]) == ('r', None):
+        return 2, writes[-1][0]
+    return 3, None
 
 class Run:
     """spec = dict(base=0|1, pending=0|1, progs=[[text,...],...], readys=[0|1,...], answers=[['a',n]|['r',n]|['x'],...],
@@ -252,11 +255,11 @@ class Run:
                 elif k == 'base.get': out.append([8, 1 if e[2] == 2 else 0])
                 elif k == 'write':
                     a = e[3]
-                    out.append([9, e[2], [0, a[1]] if a[0] == 'a' or (a[0] == 'r' and a[1] == 0) else ([1] if a[0] == 'r' else [2])])
+                    out.append([9, e[2], [0, a[1]] if a[0] == 'a' or (a[0] == 'r' and a[1] == 0) else (([3] if a[1] is None else [1]) if a[0] == 'r' else [2])])
                 elif k == 'select': out.append([10])
                 elif k == 'errbcast':
                     kind, unsent = err_unsent(e[2], self.writes)
-                    out.append([11, kind, unsent] if unsent is not None and kind < 2 else [99, 'W dispatches %r' % (e[2],)])
+                    out.append([11, kind, unsent] if unsent is not None and kind < 3 else [99, 'W dispatches %r' % (e[2],)])
                 elif k == 'close': out.append([12])
                 elif k == 'exit': pass
                 else: out.append([99, 'W ' + k])
